@@ -54,6 +54,21 @@ def gen(seed, tier):
         o.pop("d", None)
         segs = [seg(0, [g.any_frame(r.choice(pool))]) for _ in range(r.randint(2, 9))]
         cases.append(H("C03-h%d" % i, o, segs))
+    # frames whose address is zero, of every format, between ordinary frames: dropped by the reader, no row 000000
+    def zero_frame():
+        return r.choice([hx(df17(0, g.me_ident()), 112), hx(df17(0, g.me_airpos()), 112), hx(df11(0, 5), 56),
+                         hx(short_ap(r.choice([0, 4, 5]), 0, r.getrandbits(27)), 56),
+                         hx(long_ap(r.choice([16, 20, 21]), 0, r.getrandbits(27), r.getrandbits(56)), 112),
+                         hx(with_parity_pi((18 << 83) | (r.getrandbits(3) << 80) | r.getrandbits(56), 112), 112)])
+    for i in range(60 if tier == "quick" else 600):
+        pool = r.sample(ICAOS, r.randint(1, 3))
+        o = {"U": 1} if i % 2 else {}
+        if i % 3 == 0:
+            o["R"] = 1
+        segs = []
+        for _ in range(r.randint(2, 8)):
+            segs.append(seg(0, [zero_frame() if r.random() < 0.5 else g.any_frame(r.choice(pool))]))
+        cases.append(H("C03-z%d" % i, o, segs))
     return cases
 
 
